@@ -487,4 +487,80 @@ theorem arange_get (s step n k : Nat) (hk : k < n) : (arange s step n)[k]? = som
 
 theorem arange_length (s step n : Nat) : (arange s step n).length = n := by simp [arange]
 
+theorem forall2_right_mem {α β : Type} {R : α → β → Prop} {l1 : List α} {l2 : List β}
+    (h : List.Forall₂ R l1 l2) : ∀ b ∈ l2, ∃ a, a ∈ l1 ∧ R a b := by
+  induction h with
+  | nil => intro b hb; simp at hb
+  | cons hab _ ih =>
+    intro b hb
+    rcases List.mem_cons.mp hb with rfl | hb
+    · exact ⟨_, by simp, hab⟩
+    · obtain ⟨a, ha, hr⟩ := ih b hb
+      exact ⟨a, by simp [ha], hr⟩
+
+theorem extrudeNodes_get (nodes : List V3) (z : List Rat) (k n : Nat) (zk : Rat) (p : V3)
+    (hz : z[k]? = some zk) (hn : nodes[n]? = some p) :
+    (extrudeNodes nodes z)[n + k * nodes.length]? = some ⟨p.x, p.y, zk⟩ := by
+  have hnlt : n < nodes.length := by
+    by_contra hc
+    rw [List.getElem?_eq_none (by omega)] at hn
+    cases hn
+  unfold extrudeNodes
+  rw [Nat.add_comm, flatten_get_blocks nodes.length _ _ k n hnlt]
+  · simp [hz, hn]
+  · intro b hb
+    simp only [List.mem_map] at hb
+    obtain ⟨_, _, rfl⟩ := hb
+    simp
+
+theorem extrudeNodes_length (nodes : List V3) (z : List Rat) :
+    (extrudeNodes nodes z).length = z.length * nodes.length := by
+  unfold extrudeNodes
+  rw [flatten_length_blocks nodes.length]
+  · simp
+  · intro b hb
+    simp only [List.mem_map] at hb
+    obtain ⟨_, _, rfl⟩ := hb
+    simp
+
+theorem verticalFaces_length (nn : Nat) (fn : List (List Nat)) (layers : Nat) :
+    (verticalFaces nn fn layers).length = layers * fn.length := by
+  unfold verticalFaces
+  rw [flatten_length_blocks fn.length]
+  · simp
+  · intro b hb
+    simp only [List.mem_map] at hb
+    obtain ⟨_, _, rfl⟩ := hb
+    simp
+
+theorem horizontalFaces_get (nn : Nat) (cn : List (List Nat)) (L j c : Nat) (ns : List Nat)
+    (hj : j < L) (hc : cn[c]? = some ns) :
+    (horizontalFaces nn cn L)[j * cn.length + c]? = some (ns.map (· + j * nn)) := by
+  have hclt : c < cn.length := by
+    by_contra hcc
+    rw [List.getElem?_eq_none (by omega)] at hc
+    cases hc
+  unfold horizontalFaces
+  rw [flatten_get_blocks cn.length _ _ j c hclt]
+  · simp [List.getElem?_range hj, hc]
+  · intro b hb
+    simp only [List.mem_map] at hb
+    obtain ⟨_, _, rfl⟩ := hb
+    simp
+
+theorem extrudeCells_get (b : Base) (layers k c : Nat) (hk : k < layers) (hc : c < b.cf.length) :
+    ∃ vert, (extrudeCells b layers)[k * b.cf.length + c]? =
+      some (vert ++ [(b.fn.length * layers + k * b.cf.length + c, (-1 : Int)),
+                     (b.fn.length * layers + (k + 1) * b.cf.length + c, (1 : Int))]) := by
+  unfold extrudeCells
+  simp only []
+  rw [flatten_get_blocks b.cf.length _ _ k c hc]
+  · simp only [List.getElem?_map, List.getElem?_range hk, Option.map_some, Option.bind_some,
+      List.getElem?_range hc]
+    exact ⟨_, rfl⟩
+  · intro b' hb'
+    simp only [List.mem_map] at hb'
+    obtain ⟨_, _, rfl⟩ := hb'
+    simp
+
 end PorepyVerif.C23
